@@ -11,9 +11,12 @@ import (
 func header(suite Suite, _ kyber.Point, x kyber.Scalar,
 	xb1, xb2 []byte, anonymitySet Set) []byte {
 
-	// Encrypt the master scalar key with each public key in the set
+	// Encrypt the master scalar key with each public key in the set.
+	// The header is built in a fresh buffer: xb1 may be a prefix of the
+	// caller's ciphertext, which appending in place would overwrite.
 	S := suite.Point()
-	hdr := xb1
+	hdr := make([]byte, 0, len(xb1)+len(anonymitySet)*len(xb2))
+	hdr = append(hdr, xb1...)
 	for i := range anonymitySet {
 		Y := anonymitySet[i]
 		S.Mul(x, Y) // compute DH shared secret
